@@ -119,10 +119,57 @@ func c13SameRootType(c *mon.Ctx, r *rand.Rand) {
 	c.Count("same_root_type_histories")
 }
 
+// c13LongRun: one evaluator and one filter called many thousands of times on
+// a rotating set of data (anything that accumulates - a cache that fills up,
+// a counter that wraps, a pool - gets its chance); every result must be what
+// the first call on that datum returned from a fresh evaluator.
+func c13LongRun(c *mon.Ctx, r *rand.Rand) {
+	data := []interface{}{
+		map[string]interface{}{"a": 1, "l": []interface{}{1, 2, 3}, "m": map[string]interface{}{"k": "v"}, "s": "abc"},
+		map[string]interface{}{"a": "x", "l": []interface{}{}, "m": map[string]interface{}{}, "s": ""},
+		map[string]interface{}{"a": 2.5, "l": []int{3}, "s": []byte("abc")},
+		c13Doc{Name: "n", Meta: map[string]interface{}{"a": 1}}, nil,
+		map[string]interface{}{"a": 1, "l": []interface{}{"3", nil}, "m": map[string]int{"k": 1, "j": 2}, "s": "zzz"},
+	}
+	exprs := []string{`a == 1 or 3 in l`, `any l as i, x { x == 3 and i != 7 } or m.k == v`, `s matches "^a" and not (a == 2)`, `all m as k, v { k != zz } and s is not empty`, `m.zz == 1 or l is empty or a != 1`}
+	text := exprs[r.Intn(len(exprs))]
+	used, err, pan, _ := createEval(text)
+	if pan != "" || err != nil {
+		return
+	}
+	want := make([]string, len(data))
+	for i, d := range data {
+		fresh, _, _, _ := createEval(text)
+		want[i] = evaluate(fresh, d).Class()
+	}
+	n := tierN(c.Tier, 20000, 300000)
+	for k := 0; k < n; k++ {
+		i := (k*7 + k/13) % len(data)
+		if got := evaluate(used, data[i]).Class(); got != want[i] {
+			c.Violation(fmt.Sprintf("C13 history-dependent long-run used=%s fresh=%s", got, want[i]), "after many calls a used evaluator answers differently from a fresh one", map[string]any{"expression": text, "call_number": k, "datum_index": i})
+			return
+		}
+	}
+	c.Evals(n)
+	f, _ := bexpr.CreateFilter(`a == 1`)
+	in := []interface{}{data[0], data[1], data[5]}
+	for k := 0; k < n/10; k++ {
+		x := execute(f, in)
+		if x.panic != "" || x.err != nil || lenOf(x.out) != 2 {
+			c.Violation("C13 execute-history-dependent long-run", "after many calls a used filter answers differently", map[string]any{"call_number": k, "kept": lenOf(x.out), "error": fmt.Sprint(x.err) + x.panic})
+			return
+		}
+	}
+	c.Count("long_runs")
+}
+
 func c13Run(c *mon.Ctx, idx int) {
 	r := c.RNG(idx)
 	if idx%20 == 0 {
 		c13SameRootType(c, r)
+	}
+	if idx%800 == 3 {
+		c13LongRun(c, r)
 	}
 	doc := univ.GenObj(r, 3, true)
 	seed := r.Int63()
@@ -511,7 +558,7 @@ func init() {
 		NumCases:    func(tier string) int { return tierN(tier, 4000, 150000) },
 		Run:         c13Run,
 		Required: func(tier string) []string {
-			return []string{"histories", "same_root_type_histories", "evaluate_calls", "execute_calls", "calls_after_an_error_follow", "call_outcome:T", "call_outcome:F", "call_outcome:E", "history_len:0", "history_len:2", "history_len:3"}
+			return []string{"histories", "long_runs", "same_root_type_histories", "evaluate_calls", "execute_calls", "calls_after_an_error_follow", "call_outcome:T", "call_outcome:F", "call_outcome:E", "history_len:0", "history_len:2", "history_len:3"}
 		},
 	})
 	mon.Register(&mon.Prop{
